@@ -82,3 +82,47 @@ def run_iteration_scope(name, progs, scope, known, *, optimize, ticks=48, classi
     br.assumptions = ["S2 tick model and S3 semantics of the written expression are the trusted oracle",
                       f"bounded: {ticks} ticks from the all-zero state for the listed constant input valuations"]
     return br
+
+
+def _job_tmpl(args):
+    kind, pid, src, extra, optimize = args
+    from bounded import template
+    try:
+        if kind == "history":
+            bi = [n for n, v in extra.items() if set(v) <= {0, 1}]
+            return pid, src, template.history_lemmas(pid, src, optimize, timeout_ms=60000, bool_inputs=bi)
+        from bounded.memory import judge_iteration_program
+        vals, warm = extra
+        res = judge_iteration_program(src, "m", "out", vals[:1], optimize=optimize, ticks=30, warmup=warm)
+        L = (res.get("latencies") or [None])[0]
+        if L is None:
+            return pid, src, [{"name": f"template:{pid}:iteration", "status": "violated", "backend": "", "ms": 0,
+                               "witness": {"program": src, "detail": "no round-trip latency found by simulation", **(res.get("mismatches") or [{}])[0]}}]
+        return pid, src, template.iteration_lemma(pid, src, L, optimize, timeout_ms=60000)
+    except Exception as e:
+        import traceback
+        return pid, src, [{"name": f"template:{pid}", "status": "error", "detail": f"{type(e).__name__}: {e} {traceback.format_exc()[-800:]}", "backend": "", "ms": 0}]
+
+
+def run_template_scope(name, kind, progs, scope, known, *, optimize):
+    """progs: history -> [(pid, src, pools)], iteration -> [(pid, src, vals, warmup)]"""
+    br = BoundedResult(name, scope, exhaustive=True, kind="template lemmas (SMT, all values / all histories; program scope enumerated)")
+    jobs = [(kind, p[0], p[1], (p[2] if kind == "history" else (p[2], p[3])), optimize) for p in progs]
+    for pid, src, recs in run_pool(_job_tmpl, jobs):
+        for r in recs:
+            br.cases += 1
+            if r["status"] == "proved":
+                br.distinct += 1
+                br.monitors["lemmas_discharged_by_smt"] = br.monitors.get("lemmas_discharged_by_smt", 0) + 1
+            elif r["status"] == "violated":
+                br.violations.append({"what": f"{r['name']}: lemma refuted", "witness": r.get("witness", {"program": src})})
+            elif r["status"] == "error":
+                br.error = f"{r['name']}: {r['detail']}"
+            else:
+                br.undecided.append(f"{r['name']}: {r.get('detail', 'undecided')}")
+        if len(br.samples) < 2 and recs:
+            br.samples.append({"program": src, "lemmas": [(r["name"], r["status"], round(r.get("ms", 0), 1)) for r in recs]})
+    br.assumptions = ["S2 one-tick transition function and S3 memory semantics are the trusted oracle",
+                      "induction over the input history (base + step) is the argument that extends the step lemma to all histories whose steps are held >= K ticks",
+                      "program scope enumerated (bounded); data values, thresholds and history length unbounded"]
+    return br
